@@ -64,19 +64,21 @@ func (pkg *CurUpdatePackage) ReadFrom(ch BytesChannel) error {
 	}
 	n += int(tableNameLength)
 
-	// TODO Only in language option case?
-	stmtLength, err := ch.Uint16()
-	if err != nil {
-		return ErrNotEnoughBytes
-	}
-	n += 2
+	// The statement is optional - it is only present if the package
+	// has bytes left.
+	if n < int(totalLength) {
+		stmtLength, err := ch.Uint16()
+		if err != nil {
+			return ErrNotEnoughBytes
+		}
+		n += 2
 
-	pkg.Stmt, err = ch.String(int(stmtLength))
-	if err != nil {
-		return ErrNotEnoughBytes
+		pkg.Stmt, err = ch.String(int(stmtLength))
+		if err != nil {
+			return ErrNotEnoughBytes
+		}
+		n += int(stmtLength)
 	}
-	n += int(stmtLength)
-	// end TODO
 
 	if n != int(totalLength) {
 		return fmt.Errorf("expected to read %d bytes, read %d bytes instead", totalLength, n)
